@@ -53,6 +53,8 @@ def run(rep):
     apply_ops(rep, fns)
     line(rep, byname)
     ellipse(rep, byname)
+    widened_products(rep, fns)
+    rep.floor("obligations:K8", 4)
     rep.floor("obligations:K1", 2)
     rep.floor("obligations:K2", 2)
     rep.floor("obligations:K3", 2)
@@ -612,3 +614,46 @@ def ellipse(rep, byname):
         rep.ok("K5-ellipse", "validity flags value-initialised to false for every point", vinit[0])
     else:
         rep.violation("K5-ellipse", "K5:ellipse:validity:init", W + "ellipse.hpp", {"initialiser": vinit})
+
+
+INT32 = {"int", "unsigned int", "short", "unsigned short", "char", "signed char", "unsigned char"}
+INT64 = {"long", "unsigned long", "long long", "unsigned long long"}
+
+
+def widened_products(rep, fns):
+    """K8: the decision variables of the rasterizers are 64-bit, so that extents up to the coordinate type's range can be squared; a product that is
+    computed in a 32-bit type and only then widened has already wrapped (semi-axis 65536: a*a == 0 in unsigned int, the first loop of obtain_trajectory never ends)"""
+    rep.rule("K8 in every rasterizer function no product of run-time operands is computed in a 32-bit integer type and then widened to a 64-bit one (implicit or explicit cast directly "
+             "over the multiplication): the operands are widened first. Witness for a violation: a == 65536 gives a*a == 0 (mod 2^32)")
+    for f in fns:
+        n = f["name"].replace("boost::gil::", "")
+        if "apply_rasterizer_op" in n:
+            continue
+        rep.count("obligations:K8")
+        bad = []
+        nprod = 0
+        for x, _ in R.find(f["body"], lambda x: x.get("k") == "Binary" and x.get("op") == "*"):
+            nprod += 1
+        for x, _ in R.find(f["body"], lambda x: x.get("k") in ("ImplicitCast", "Cast", "ExplicitCast") and x.get("from_c") is not None):
+            frm = x["from_c"].replace("const ", "").strip()
+            to = x["to_c"].replace("const ", "").strip()
+            if frm not in INT32 or to not in INT64:
+                continue
+            e = x["e"]
+            while isinstance(e, dict) and e.get("k") == "Paren":
+                e = e["e"]
+            if isinstance(e, dict) and e.get("k") == "Binary" and e.get("op") == "*" and not (_is_const(e["l"]) and _is_const(e["r"])):
+                bad.append({"product": R.key(e), "computed_in": frm, "widened_to": to, "line": x.get("line")})
+        key = "K8:%s" % n
+        if bad:
+            rep.violation("K8-widened-product", key, R.fn_where(f), {"products": bad, "witness": "operand 65536: 65536*65536 == 0 in a 32-bit type; for the ellipse t1 == 0 makes d2 < 0 invariant and the first loop endless"})
+        else:
+            rep.ok("K8-widened-product", key, "%d products, none widened after the multiplication" % nprod)
+
+
+def _is_const(e):
+    while isinstance(e, dict) and e.get("k") in ("Paren", "ImplicitCast"):
+        if "const" in e:
+            return True
+        e = e["e"]
+    return isinstance(e, dict) and ("const" in e or e.get("k") in ("Int", "IntegerLiteral"))
